@@ -123,13 +123,13 @@ def _oracle(c, rng):
         # k-th state = one-step prediction from the previously predicted states and the true inputs
         for k in range(m, Xe.shape[0]):
             W = np.hstack((P[k - m:k, :nx], Xe[k - m:k, nx:]))
-            Wm = pykoop.combine_episodes([(l, W)], episode_feature=fe)      # as the fitted pipeline sees it
+            Wm = st.ref_combine([(l, W)], fe)      # as the fitted pipeline sees it
             one = kp.predict(Wm)
             one = one[-1, (1 if fe else 0):]
             if not np.allclose(one, P[k, :nx], rtol=1e-7, atol=1e-9):
                 return f'episode {l}: predicted state {k} is not the one-step prediction from states {k - m}..{k - 1}', tags
         # independence of the other episodes
-        alone = pykoop.combine_episodes([(l, Xe)], episode_feature=e)
+        alone = st.ref_combine([(l, Xe)], e)
         Pa = kp.predict_trajectory(alone, None, relift_state=True, return_input=True, episode_feature=c['call'])
         if not np.allclose(Pa[:, ec:], P, rtol=1e-12, atol=0):
             return f'episode {l}: prediction depends on the other episodes', tags
